@@ -126,3 +126,18 @@ lemma('vdW:from_critical-then-reloaded', P, forall=dict(Tc=Real(100., 700.), Pc=
 
 from contracts import helpers
 helpers.install(P, ('convert_unit', [('bar', ['Pa']), ('Pa', ['bar'])]))
+
+# ---- arrays of states of any length (declared bounded: run natively on samples; never counted as proved) --------------------------
+for n_ in (4, 40, 255, 256, 1000):
+    contract(E + 'vanDerWaalsEOS.get_P', P, label='array-of-%d-volumes' % n_, native_only=True,
+             args=dict(self=vdw(), T=st['T'], V=RealVec(n_, 1e-3, 1.), n=Real(0.5, 5.)),
+             requires=AB + ['T > 0', 'n > 0', 'all(V[i] > n * self.b for i in range(len(V)))'],
+             ensures=[('each-entry-is-the-scalar-value', 'all(at(result, i) == self.get_P(T=T, V=V[i], n=n) for i in range(len(V)))'),
+                      ('back:T', 'all(isclose(self.get_T(V=V[i], P=at(result, i), n=n), T, 1e-6) for i in range(len(V)))')])
+    contract(E + 'vanDerWaalsEOS.get_T', P, label='array-of-%d-volumes' % n_, native_only=True,
+             args=dict(self=vdw(), P=st['P'], V=RealVec(n_, 1e-3, 1.), n=Real(0.5, 5.)),
+             requires=AB + ['P > 0', 'n > 0', 'all(V[i] > n * self.b for i in range(len(V)))'],
+             ensures=[('each-entry-is-the-scalar-value', 'all(at(result, i) == self.get_T(P=P, V=V[i], n=n) for i in range(len(V)))')])
+    contract(E + 'IdealGasEOS.get_P', P, label='array-of-%d-volumes' % n_, native_only=True,
+             args=dict(self=ig(), T=st['T'], V=RealVec(n_, 1e-3, 1.), n=Real(0.5, 5.)), requires=['T > 0', 'n > 0'],
+             ensures=[('each-entry-is-the-scalar-value', 'all(at(result, i) == self.get_P(T=T, V=V[i], n=n) for i in range(len(V)))')])
